@@ -806,4 +806,51 @@ theorem slist_size_int_precondition (h : SHeap) (head : Nat) (xs : List Nat) (r 
 theorem size_int_overflow_witness (visited : List Nat) (hl : visited.length = 2147483648) :
     (countInt visited).toInt = -2147483648 := countInt_overflow visited hl
 
+/-! ### container_of with a side-effecting argument -/
+
+/-- THE NULL-SAFE POP IDIOM `mcast_out_or_null(slist_pop_first(&head), T, member)`.  Contract the
+operation language assumes: the macro evaluates its argument exactly once (it is a function of an
+already evaluated pointer).  Then one idiom = one pop: exactly the first element leaves the list
+and the result is ITS object; on an empty list the result is NULL and nothing changes.  (The
+harness counts the evaluations of the argument on the real macros: ops `spop_entry`, `cpop_entry`,
+`hpop_entry`, `smacros`.) -/
+theorem pop_idiom_single_evaluation (h : SHeap) (head : Nat) (off : Addr) :
+    (∀ x xs, SRing h head (x :: xs) → HAddrOK off x →
+      (slistPopFirstEntry h head off).2 = entryOf off x ∧ (slistPopFirstEntry h head off).2 ≠ 0 ∧
+      SRing (slistPopFirstEntry h head off).1 head xs) ∧
+    (SRing h head [] → slistPopFirstEntry h head off = (h, 0)) := by
+  refine ⟨fun x xs r hx => ?_, fun r => ?_⟩
+  · obtain ⟨e1, e2⟩ := slistPopFirst_ring h head x xs r
+    obtain ⟨m1, m2⟩ := mcastOutOrNull_node off hx
+    simp only [slistPopFirstEntry, e1]
+    exact ⟨m1, m1 ▸ m2, e2⟩
+  · simp [slistPopFirstEntry, slistPopFirst_empty h head r, ptrOf, mcastOutOrNull]
+
+/-- the same idiom on a dlist (`n = head->next; if (n == head) return NULL; dlist_del_init(n)`) and
+on an hlist (`n = head->first; if (!n) return NULL; hlist_del(n)`): one node leaves per call -/
+theorem pop_idiom_dlist_hlist :
+    (∀ {h : Heap} {hd x : Nat} {xs : List Nat} {B : Rings}, RingsOK h ((hd :: x :: xs) :: B) →
+      (dlistPopFirst h hd).2 = some x ∧ RingsOK (dlistPopFirst h hd).1 ([x] :: (hd :: xs) :: B)) ∧
+    (∀ {h : HHeap} {l x : Nat} {xs : List Nat}, HList h l (x :: xs) →
+      (hlistPopFirst h l).2 = some x ∧ HList (hlistPopFirst h l).1 l xs) := by
+  refine ⟨fun {h hd x xs B} ok => ?_, fun {h l x xs} r => ?_⟩
+  · obtain ⟨⟨a', xs', e, ring⟩, _, _⟩ := ok.head
+    injection e with e1 e2; subst e1; subst e2
+    have hn : h.next hd = x := by have := ring.fwd; simp only [Seg] at this; exact this.1
+    have hne : x ≠ hd := by
+      have := ring.nodup; simp only [List.nodup_cons, List.mem_cons, not_or] at this
+      exact fun e => this.1.1 e.symm
+    simp only [dlistPopFirst, hn, hne, if_false]
+    refine ⟨trivial, ?_⟩
+    have okr : RingsOK h ((x :: (xs ++ [hd])) :: B) := ok.rot
+    cases xs with
+    | nil => simpa using okr.delInit
+    | cons y ys =>
+      have h1 := RingsOK.delInit (a := x) (x := y) (xs := ys ++ [hd]) (by simpa using okr)
+      have h2 := RingsOK.rotN (l1 := y :: ys) (b := hd) (l2 := []) (by simpa using swap12 h1)
+      simpa using swap12 h2
+  · have hf : h.first l = some x := by have := r.chain; simp only [HChain] at this; exact this.1
+    simp only [hlistPopFirst, hf]
+    exact ⟨trivial, hlist_del_member (pre := []) (post := xs) (by simpa using r)⟩
+
 end Igris.C01
